@@ -86,6 +86,12 @@ EXTRA = [
     "enum E { A = 1, B, } e;",
     "int f(void){ if (({ 1; })) return ({ 2; }); while (({ 0; })) ; for (({ 1; }); ({ 2; }); ({ 3; })) ; int x = ({ 4; }); return x; }",
     "#pragma omp parallel  \nint x;\nvoid f(void){\n#pragma unroll 4\t\n for(;;) ;\n#pragma  spaced   out \n}\nstruct S {\n#pragma pack(1) \n int a; };",
+    # consecutive declarators of different shape that start with the same token
+    "void f(int *p, int *);",
+    "typedef int T; int f(int (*T), int (T));",
+    "int *a, *b[2], (*c)(void), (*d);",
+    "void g(int (*)(int), int (*h)(int), int (k));",
+    "struct S { int *m, *n[2], (*o); } s, *ps, (*pps);",
     "typedef int T; void f(void){ T T, *p; }",
     "typedef int T; void f(int a){ T T , T ; }",
     "typedef int T; enum { T , } ;",
